@@ -262,14 +262,18 @@ public:
         if (ch == '\r') {
             ch = '\n';
 
-            int ch2 = get();
             if (isUtf16) {
+                int ch2 = get();
                 const int c2 = get();
                 ch2 = makeUtf16Char(ch2, c2);
-            }
 
-            if (ch2 != '\n')
-                ungetChar();
+                if (ch2 != '\n')
+                    ungetChar();
+            } else if (peek() == '\n') {
+                // do not read ahead and unget: a later ungetChar() must give back this character,
+                // not the one behind it (FileStream::unget() pushes back the last character read)
+                (void)get();
+            }
         }
 
         return ch;
